@@ -210,6 +210,17 @@ class BUnit:
         self.record(name, unit, r, function, "lemma %s" % name)
         return r
 
+    def guard_sat(self, name, hyps, unit, timeout_ms=10000):
+        """vacuity guard for a hand-picked (minimal) hypothesis set: it must be satisfiable, else everything follows from it"""
+        import time as _t
+        s_ = z3.Solver(); s_.set("timeout", timeout_ms); s_.add(*hyps)
+        t0 = _t.time(); r = s_.check()
+        st = "discharged" if r == z3.sat else ("failed" if r == z3.unsat else "undecided")
+        from vlib import Obligation
+        self.ctx.add(Obligation("guard:%s hypotheses satisfiable" % name, unit, "z3", st, _t.time() - t0,
+                                "reachability guard" if r == z3.sat else "hypothesis set is %s" % r))
+        return r == z3.sat
+
     def record(self, nm, unit, r, function, what):
         used = self.__dict__.setdefault("_names", {})
         k = used.get((unit, nm), 0)
